@@ -496,4 +496,4 @@ def extra_coverage(prop, tier, agg):
 
 def main(prop, tier, seed, budget):
     return runner.explore(__import__('dst.engines.faultsim', fromlist=['x']), prop, tier, seed,
-                          batch=256, budget_s=budget or (150 if tier == 'quick' else 1500), max_keys=8)
+                          batch=256, budget_s=budget or (150 if tier == 'quick' else 1500), max_keys=8, task_timeout=120)
